@@ -14,6 +14,10 @@ verus! {
 
 //@include flow.inc
 
+//@include frames.inc
+
+//@include state.inc
+
 //@include stream_send.inc
 
 // ---- the scheduler's queues: opaque; only the membership flag they set on the stream is specified
@@ -38,12 +42,41 @@ impl QueueCapacity {
 
 pub struct Counts { pub tag: u8 }
 
+#[derive(PartialEq, Eq, Structural, Clone, Copy, Debug)]
+pub enum InFlightData {
+    Nothing,
+    DataFrame(Key),
+    Drop,
+}
+
 pub struct Prioritize {
     pub pending_send: QueueSend,
     pub pending_capacity: QueueCapacity,
     pub pending_open: QueueOpen,
     pub flow: FlowControl,
+    pub last_opened_id: StreamId,
+    pub in_flight_data_frame: InFlightData,
     pub max_buffer_size: usize,
+}
+
+/// `frame.map(|buf| Prioritized { inner: buf.take(len), end_of_stream: eos, stream: key })` of pop_frame
+/// (Data::map + bytes::Buf::take): the payload is limited to `len` bytes, nothing is consumed yet.
+pub fn wrap_prioritized(f: frame::Data<Payload>, len: usize, eos: bool, key: Key) -> (r: frame::Data<Prioritized>)
+    ensures
+        r.stream_id == f.stream_id && r.eos == f.eos,
+        r.data == (Prioritized { inner_rem: f.data.rem, limit: len, end_of_stream: eos, stream: key }),
+{
+    frame::Data { stream_id: f.stream_id, eos: f.eos, data: Prioritized { inner_rem: f.data.rem, limit: len, end_of_stream: eos, stream: key } }
+}
+
+/// `frame.map(|p| { eos = p.end_of_stream; p.inner.into_inner() })` of reclaim_frame_inner: what is left of the
+/// payload after the codec wrote (part of) it, and the remembered END_STREAM.
+pub fn unwrap_prioritized(f: frame::Data<Prioritized>) -> (r: (frame::Data<Payload>, bool))
+    ensures
+        r.0.stream_id == f.stream_id && r.0.eos == f.eos && r.0.data.rem == f.data.inner_rem,
+        r.1 == f.data.end_of_stream,
+{
+    (frame::Data { stream_id: f.stream_id, eos: f.eos, data: Payload { rem: f.data.inner_rem } }, f.data.end_of_stream)
 }
 
 /// I-cap / I-send-pool restricted to one stream
@@ -94,6 +127,7 @@ impl Prioritize {
     //@spec         // queued and the connection task woken iff the stream may send
     //@spec         old(stream).is_pending_open || old(stream).is_pending_push ==> *final(stream) == *old(stream) && *final(task) == *old(task),
     //@spec         !old(stream).is_pending_open && !old(stream).is_pending_push ==> *final(stream) == (Stream { is_pending_send: true, ..*old(stream) }) && *final(task) is None,
+    //@spec         final(self).flow == old(self).flow && final(self).in_flight_data_frame == old(self).in_flight_data_frame && final(self).max_buffer_size == old(self).max_buffer_size,
     //@end
 
     //@extract src/proto/streams/prioritize.rs Prioritize::try_assign_capacity
@@ -199,6 +233,65 @@ impl Prioritize {
     //@spec             } else {
     //@spec                 r.is_ok() && final(stream).send_flow.w() == old(stream).send_flow.w() + inc && wf_send(*final(stream))
     //@spec             }),
+    //@end
+
+    //@extract src/proto/streams/prioritize.rs Prioritize::queue_frame
+    //@subst queue_frame<B>(=>queue_frame(
+    //@subst frame: Frame<B>=>frame: QFrame
+    //@subst buffer: &mut Buffer<Frame<B>>=>buffer: &mut Buffer
+    //@subst stream: &mut store::Ptr=>stream: &mut Stream
+    //@spec     ensures
+    //@spec         // exactly this frame, at the BACK of this stream's queue
+    //@spec         final(stream).pending_send@ == old(stream).pending_send@.push(frame),
+    //@spec         // scheduled, and the connection task woken, iff the stream may send
+    //@spec         final(stream).is_pending_send == (old(stream).is_pending_send || (!old(stream).is_pending_open && !old(stream).is_pending_push)),
+    //@spec         !old(stream).is_pending_open && !old(stream).is_pending_push ==> *final(task) is None,
+    //@spec         old(stream).is_pending_open || old(stream).is_pending_push ==> *final(task) == *old(task),
+    //@spec         final(stream).send_flow == old(stream).send_flow && final(stream).state == old(stream).state
+    //@spec             && final(stream).buffered_send_data == old(stream).buffered_send_data && final(stream).requested_send_capacity == old(stream).requested_send_capacity
+    //@spec             && final(stream).is_pending_open == old(stream).is_pending_open && final(stream).is_pending_push == old(stream).is_pending_push,
+    //@spec         final(self).flow == old(self).flow,
+    //@end
+
+    //@extract src/proto/streams/prioritize.rs Prioritize::push_back_frame
+    //@subst push_back_frame<B>(=>push_back_frame(
+    //@subst frame: Frame<B>=>frame: QFrame
+    //@subst buffer: &mut Buffer<Frame<B>>=>buffer: &mut Buffer
+    //@subst stream: &mut store::Ptr=>stream: &mut Stream
+    //@spec     requires !old(stream).is_pending_open,   // a stream whose DATA was in the codec has been opened
+    //@spec     ensures
+    //@spec         // the frame goes to the FRONT: it is sent before everything queued later
+    //@spec         final(stream).pending_send@ == seq![frame] + old(stream).pending_send@,
+    //@spec         old(stream).send_flow.a() > 0 ==> final(stream).is_pending_send,
+    //@spec         final(stream).send_flow == old(stream).send_flow && final(stream).state == old(stream).state
+    //@spec             && final(stream).buffered_send_data == old(stream).buffered_send_data,
+    //@spec         final(self).flow == old(self).flow && final(self).in_flight_data_frame == old(self).in_flight_data_frame,
+    //@end
+
+    //@extract src/proto/streams/prioritize.rs Prioritize::clear_queue
+    //@subst clear_queue<B>(=>clear_queue(
+    //@subst buffer: &mut Buffer<Frame<B>>=>buffer: &mut Buffer
+    //@subst stream: &mut store::Ptr=>stream: &mut Stream
+    //@spec     ensures
+    //@spec         final(stream).pending_send@.len() == 0,
+    //@spec         final(stream).buffered_send_data == 0 && final(stream).requested_send_capacity == 0,
+    //@spec         final(stream).send_flow == old(stream).send_flow && final(stream).state == old(stream).state && final(stream).key == old(stream).key
+    //@spec             && final(stream).is_pending_open == old(stream).is_pending_open && final(stream).is_pending_push == old(stream).is_pending_push
+    //@spec             && final(stream).is_pending_send == old(stream).is_pending_send && final(stream).is_pending_send_capacity == old(stream).is_pending_send_capacity
+    //@spec             && final(stream).send_task == old(stream).send_task && final(stream).id == old(stream).id && final(stream).ref_count == old(stream).ref_count
+    //@spec             && final(stream).is_counted == old(stream).is_counted && final(stream).send_capacity_inc == old(stream).send_capacity_inc,
+    //@spec         final(self).flow == old(self).flow,
+    //@spec         // a DATA frame of THIS stream that is inside the codec must not be re-queued when it comes back
+    //@spec         final(self).in_flight_data_frame == (if old(self).in_flight_data_frame == InFlightData::DataFrame(old(stream).key) { InFlightData::Drop } else { old(self).in_flight_data_frame }),
+    //@loop 0     invariant
+    //@loop 0         stream.send_flow == old(stream).send_flow && stream.state == old(stream).state && stream.key == old(stream).key,
+    //@loop 0         stream.is_pending_open == old(stream).is_pending_open && stream.is_pending_push == old(stream).is_pending_push,
+    //@loop 0         stream.is_pending_send == old(stream).is_pending_send && stream.is_pending_send_capacity == old(stream).is_pending_send_capacity,
+    //@loop 0         stream.send_task == old(stream).send_task && stream.id == old(stream).id && stream.ref_count == old(stream).ref_count,
+    //@loop 0         stream.is_counted == old(stream).is_counted && stream.send_capacity_inc == old(stream).send_capacity_inc,
+    //@loop 0         *self == *old(self),
+    //@loop 0     ensures stream.pending_send@.len() == 0,
+    //@loop 0     decreases stream.pending_send@.len(),
     //@end
 }
 
